@@ -203,7 +203,16 @@ def run(prop, tier, seed, replay):
             binning2 = case["binning"]
             if variant == "edges":
                 e = case["binning"].edges.copy()
-                e[-1] += 0.5
+                # clearly different / different in the 7th digit / different by one unit in the last place: unequal is unequal
+                how = ["far", "1e-7", "ulp"][(ci // len(OPS)) % 3]
+                k_ = rng.randrange(len(e))
+                if how == "far":
+                    e[-1] += 0.5
+                elif how == "1e-7":
+                    e[k_] = e[k_] * (1 + 1e-7) if e[k_] != 0 else 1e-9
+                else:
+                    e[k_] = np.nextafter(e[k_], 10.0)
+                ck.count(f"add:other-edges:{how}")
                 binning2 = Binning(e, closed=str(case["binning"].closed))
             elif variant == "closed":
                 binning2 = Binning(case["binning"].edges.copy(),
